@@ -85,6 +85,14 @@ theorem mapM_dec_enc (b : EB V) : ∀ (vs : List V), (∀ v ∈ vs, b.bind.dec (
     rw [h v (List.mem_cons_self), mapM_dec_enc b vs (fun v' hv' => h v' (List.mem_cons_of_mem _ hv'))]
     rfl
 
+theorem flatMap_lineItems (b : EB V) : ∀ (vs : List V), (∀ v ∈ vs, lineItems (b.enc v) = [b.enc v]) →
+    (vs.map b.enc).flatMap lineItems = vs.map b.enc
+  | [], _ => rfl
+  | v :: vs, h => by
+    simp only [List.map_cons, List.flatMap_cons, h v List.mem_cons_self]
+    rw [flatMap_lineItems b vs (fun v' hv' => h v' (List.mem_cons_of_mem _ hv'))]
+    rfl
+
 /-- one statement decodes its own member when the request carries exactly that member's values under its name -/
 theorem decodeOne_ok (r : Req) (b : EB V) (s : Slot V) (hc : Conforms b s)
     (hH : isHeaderKind b.bind.kind = true → getAll r.headers b.bind.wire = (slotValues s).map b.enc)
@@ -115,11 +123,12 @@ theorem decodeOne_ok (r : Req) (b : EB V) (s : Slot V) (hc : Conforms b s)
     rename_i vs
     have := hH (by simp [hk, isHeaderKind])
     simp only [slotValues] at this hdec
-    simp only [decodeOne, hk, parseListHeader, this, mapM_dec_enc b vs hdec]
+    have hitems : (vs.map b.enc).flatMap lineItems = vs.map b.enc := flatMap_lineItems b vs hshape.2
+    simp only [decodeOne, hk, parseListHeader, this, hitems, mapM_dec_enc b vs hdec]
     cases req with
     | false => simp [Except.map]
     | true =>
-      have hne := hshape rfl
+      have hne := hshape.1 rfl
       cases vs with
       | nil => exact absurd rfl hne
       | cons _ _ => simp [Except.map]
